@@ -120,7 +120,13 @@ class _T(ast.NodeTransformer):
                     continue
                 if (isinstance(a, ast.Call) and isinstance(a.func, ast.Attribute) and a.func.attr == "format"):
                     continue
-                if isinstance(a, (ast.Subscript, ast.Attribute)):
+                if isinstance(a, ast.Call):
+                    fn = a.func
+                    name = fn.id if isinstance(fn, ast.Name) else (fn.attr if isinstance(fn, ast.Attribute) else "")
+                    if name in ("str", "repr", "hex", "bin", "oct", "format", "join", "ascii"):
+                        continue
+                    keep.append(self.visit(a))
+                elif isinstance(a, (ast.Subscript, ast.Attribute)):
                     keep.append(self.visit(a))
             if not keep:
                 return ast.copy_location(ast.Constant(None), node)
